@@ -128,6 +128,41 @@ func withWatchdog(d time.Duration, f func()) (hung bool, panicked interface{}) {
 	}
 }
 
+func placement(e storage.Engine) map[uint64]kvstore.VerifPlace {
+	k, ok := e.(*kvstore.KVStore)
+	if !ok {
+		return nil
+	}
+	return k.VerifPlacement()
+}
+
+// movedOrder reconstructs the Go-map iteration order compaction used: the hkeys whose table changed, in
+// the order in which they were appended to their new tables.
+func movedOrder(before, after map[uint64]kvstore.VerifPlace) []string {
+	type mv struct {
+		h uint64
+		p kvstore.VerifPlace
+	}
+	var l []mv
+	for h, a := range after {
+		b, ok := before[h]
+		if ok && b.Coefficient != a.Coefficient {
+			l = append(l, mv{h, a})
+		}
+	}
+	sort.Slice(l, func(i, j int) bool {
+		if l[i].p.Coefficient != l[j].p.Coefficient {
+			return l[i].p.Coefficient < l[j].p.Coefficient
+		}
+		return l[i].p.Offset < l[j].p.Offset
+	})
+	out := []string{}
+	for _, x := range l {
+		out = append(out, fmt.Sprint(x.h))
+	}
+	return out
+}
+
 func checkStoreInvariants(name string, e storage.Engine) []string {
 	k, ok := e.(*kvstore.KVStore)
 	if !ok {
@@ -258,18 +293,23 @@ func runStoreScenario(sc *storeScenario, out *bufio.Writer) (hung bool) {
 				}
 				ob = []interface{}{"range", items}
 			case "compact":
-				done, err := pick(op[1]).Compaction()
+				s := pick(op[1])
+				before := placement(s)
+				done, err := s.Compaction()
 				if err != nil {
 					ob = []interface{}{"done", "err:" + err.Error()}
 				} else {
-					ob = []interface{}{"done", done}
+					ob = []interface{}{"done", done, movedOrder(before, placement(s))}
 				}
 			case "compactall":
 				s := pick(op[1])
 				n := 0
 				fin := false
+				ords := [][]string{}
 				for n < 400 {
+					before := placement(s)
 					done, err := s.Compaction()
+					ords = append(ords, movedOrder(before, placement(s)))
 					n++
 					if err != nil {
 						break
@@ -280,9 +320,9 @@ func runStoreScenario(sc *storeScenario, out *bufio.Writer) (hung bool) {
 					}
 				}
 				if fin {
-					ob = []interface{}{"steps", n}
+					ob = []interface{}{"steps", n, ords}
 				} else {
-					ob = []interface{}{"steps", nil}
+					ob = []interface{}{"steps", nil, ords}
 				}
 			case "scanall":
 				s := pick(op[1])
